@@ -103,7 +103,8 @@ CLAIMED = {
              "recovered, the rest handed back); 0-RTT packets: C02_zero_rtt_packet_extracted, C02_zero_rtt_datagram (client early keys); hellos in the CRYPTO stream: C02_quic_client_hello, C02_quic_server_hello (client random and first-offered / selected "
              "suite are exactly what the RFC 8446 encoding carries), C02_quic_keys_installed (set_tls_decryptors installs for each of the four suites exactly the keys derived from "
              "this client random's key-log lines -- the premises of the packet and datagram theorems -- and changes nothing else), C02_quic_server_hello_frame (the CRYPTO frame with the "
-             "ServerHello through reassembly, parser and key installation). NOT proved: which early keys are "
+             "ServerHello through reassembly, parser and key installation), C02_quic_epoch_invariant_installed and C02_one_rtt_key_selected (afterwards the key-update invariant holds and a 1-RTT packet of "
+             "generation g' is given the key of G g' of its direction: the hypothesis of C02_one_rtt_datagram discharged). NOT proved: which early keys are "
              "installed (open finding), "
              "CID matching, Retry: "
              "decided by an independent RFC 9000/9001 reference sender run through the implementation over every dimension of the quantifier, with the executable session model "
